@@ -1,0 +1,6 @@
+//go:build !verif
+
+package floodsub
+
+// verifGate is a no-op unless built with the verif tag.
+func verifGate(point string, m *FloodSub, objs ...any) {}
